@@ -2,6 +2,7 @@
 from __future__ import annotations
 
 import hashlib
+import re
 import json
 import os
 import subprocess
@@ -37,6 +38,14 @@ def repo_head() -> str:
         ).stdout.strip()
     except Exception:
         return "unknown"
+
+
+_ADDR = re.compile(r"0x[0-9a-fA-F]+|scope [0-9a-fA-F]{6,}|Task-[0-9]+|at [0-9a-fA-F]{8,}")
+
+
+def clean_repr(x, limit: int = 300) -> str:
+    """repr() without memory addresses / task numbers, so that observations stay reproducible."""
+    return _ADDR.sub("<..>", repr(x))[:limit]
 
 
 class Violation:
